@@ -506,74 +506,99 @@ def dedup(items, key):
     return out
 
 
+def balanced_files(tag, header, agree_fn, case_type, terms, nshards):
+    """case files with the terms spread by size (longest first onto the lightest shard); returns
+    [(name, text, [global indices])]"""
+    nshards = max(1, min(nshards, len(terms)))
+    order = sorted(range(len(terms)), key=lambda i: -len(terms[i]))
+    bins = [[0, []] for _ in range(nshards)]
+    for i in order:
+        b = min(bins, key=lambda x: x[0])
+        b[0] += len(terms[i]) + 200
+        b[1].append(i)
+    files = []
+    for k, (_, idx) in enumerate(bins):
+        if not idx:
+            continue
+        text = (header + '\nRequire Import List. Import ListNotations.\n'
+                'Definition verif_cases : list (%s) :=\n  [ %s ].\n' % (case_type, '\n  ; '.join(terms[i] for i in idx)) +
+                'Fixpoint verif_failing {A} (f : A -> bool) (l : list A) (i : nat) : list nat :=\n'
+                '  match l with nil => nil | x :: r => if f x then verif_failing f r (S i) '
+                'else i :: verif_failing f r (S i) end.\n'
+                'Eval vm_compute in (verif_failing (%s) verif_cases 0).\n' % agree_fn)
+        files.append(('%s_%04d' % (tag, k), text, idx))
+    return files
+
+
 def run_correspondence(ctx, res, recs, w):
-    cap = 2500 if ctx['tier'] == 'quick' and not ctx['escalate'] else (6000 if ctx['tier'] == 'quick' else 40000)
+    quick = ctx['tier'] == 'quick'
+    cap = (2000 if not ctx['escalate'] else 4500) if quick else 40000
     l1 = [r for r in recs['l1'] if r['cls'] in tr.PUBLIC and 'out' in r]
     res.distribution['validate_config_calls_recorded'] = len(recs['l1'])
     res.distribution['validate_config_calls_untranslated_class'] = len(recs['l1']) - len(l1)
     l1 = dedup(l1, lambda r: (r['cls'], r['in'], r['dc'], r['out']))
     res.distribution['validate_config_distinct'] = len(l1)
-    # keep every refused / escaping case and every class; thin the accepted bulk deterministically if above the cap
+    # keep every refused / escaping case; thin the accepted bulk deterministically if above the cap
     if len(l1) > cap:
         keep = [r for r in l1 if r['out'].startswith('(OExc')]
         rest = [r for r in l1 if not r['out'].startswith('(OExc')]
-        step = max(1, len(rest) // max(1, cap - len(keep)))
+        step = max(1, -(-len(rest) // max(1, cap - len(keep))))
         l1 = keep + rest[::step]
     res.distribution['validate_config_evaluated_in_coq'] = len(l1)
     kinds = {}
     for r in l1:
-        k = r['out'][1:5] + (':' + r['out'][6:-1] if r['out'].startswith('(OExc') else '')
+        k = 'accepted' if r['out'].startswith('(ORet') else r['out'][6:-1]
         kinds[k] = kinds.get(k, 0) + 1
     res.distribution['validate_config_outcomes'] = kinds
-    terms = [V.l1_term(r) for r in l1]
-    shard = max(40, (len(terms) + 23) // 24)
-    n, failing, errors = core.eval_agreement('c20_l1', V.L1_HEADER + V.L1_DEFS, 'l1_case', terms, shard=shard,
-                                             case_type='(pyval -> schema) * pyval * list (pyval * outcome pyval) * pyval * obs')
-    res.programs += n
-    res.corr_errors += errors
-    for i in failing:
-        res.disagreements.append({'level': 'validate_config', 'class': l1[i]['cls'], 'input': l1[i]['in'][:600],
-                                  'implementation': l1[i]['out'][:600]})
-    if l1:
-        res.samples.append({'validate_config_case': {'class': l1[len(l1) // 3]['cls'], 'input': l1[len(l1) // 3]['in'][:400],
-                                                     'implementation': l1[len(l1) // 3]['out'][:400]}})
-    # level 0 and level 2
-    hdr = V.L2_HEADER + V.L1_DEFS + V.L2_DEFS
+    per_class = {}
+    for r in l1:
+        per_class[r['cls']] = per_class.get(r['cls'], 0) + 1
+    res.distribution['validate_config_per_class'] = per_class
+    hdr1 = V.L1_HEADER + V.L1_DEFS
+    hdr2 = V.L2_HEADER + V.L1_DEFS + V.L2_DEFS
     l0 = dedup(recs['l0'], lambda r: (r['chain'], r['config'], r['kwargs'], r['use']))
-    l0 = [r for r in l0 if r['chain'] != '[]'] + [r for r in l0 if r['chain'] == '[]'][::max(1, len(l0) // (cap // 5))]
-    terms = ['(%s, %s, %s, %s)' % (r['chain'], r['config'], r['kwargs'], r['use']) for r in l0]
-    n, failing, errors = core.eval_agreement('c20_l0', hdr, 'l0_case', terms, shard=max(40, (len(terms) + 7) // 8),
-                                             case_type='list (list (pyval * pyval)) * option pyval * list (pyval * pyval) * pyval')
-    res.programs += n
-    res.corr_errors += errors
-    for i in failing:
-        res.disagreements.append({'level': 'use_config', 'class': l0[i]['cls'], 'config': l0[i]['config'][:300],
-                                  'kwargs': l0[i]['kwargs'][:300]})
+    plain = [r for r in l0 if r['chain'] == '[]']
+    l0 = [r for r in l0 if r['chain'] != '[]'] + plain[::max(1, len(plain) // max(1, cap // 5))]
     m = dedup(recs['math'], lambda r: (r['in'], r['dfuncs'], r['dvars'], r['out']))[:cap]
-    terms = ['(%s, %s, %s, %s)' % (r['dfuncs'], r['dvars'], r['in'], r['out']) for r in m]
-    n, failing, errors = core.eval_agreement('c20_math', hdr, 'math_case', terms, shard=max(40, (len(terms) + 15) // 16),
-                                             case_type='list pyval * list pyval * pyval * obs')
-    res.programs += n
-    res.corr_errors += errors
-    for i in failing:
-        res.disagreements.append({'level': 'validate_math_config', 'class': m[i]['cls'], 'input': m[i]['in'][:600],
-                                  'implementation': m[i]['out'][:300]})
+    # the default function / variable name lists are long and few: name them once in the header
+    names = {}
+    for r in m:
+        for k in ('dfuncs', 'dvars'):
+            names.setdefault(r[k], 'names_%d' % len(names))
+    hdr_math = ''.join('Definition %s : list pyval := %s.\n' % (n, t) for t, n in names.items())
     lg = dedup(recs['list'], lambda r: (r['in'], r['norm'], r['out']))[:cap]
-    terms = ['(%d, %s, %s, %s)' % (w.class_ids['ListGrader'], r['in'], r['norm'], r['out']) for r in lg]
-    n, failing, errors = core.eval_agreement('c20_list', hdr, 'list_case', terms, shard=max(40, (len(terms) + 7) // 8),
-                                             case_type='Z * pyval * outcome pyval * obs')
-    res.programs += n
-    res.corr_errors += errors
-    for i in failing:
-        res.disagreements.append({'level': 'ListGrader.__init__', 'input': lg[i]['in'][:600], 'implementation': lg[i]['out'][:300]})
     sl = dedup(recs['slist'], lambda r: (r['in'], r['out']))[:cap]
-    terms = ['(%d, %s, %s)' % (w.class_ids['SingleListGrader'], r['in'], r['out']) for r in sl]
-    n, failing, errors = core.eval_agreement('c20_slist', hdr, 'slist_case', terms, shard=max(40, (len(terms) + 7) // 8),
-                                             case_type='Z * pyval * obs')
-    res.programs += n
-    res.corr_errors += errors
-    for i in failing:
-        res.disagreements.append({'level': 'SingleListGrader.__init__', 'input': sl[i]['in'][:600], 'implementation': sl[i]['out'][:300]})
+    batches = [
+        ('validate_config', 'c20_l1', hdr1, 'l1_case', '(pyval -> schema) * pyval * list (pyval * outcome pyval) * pyval * obs',
+         [V.l1_term(r) for r in l1], l1, 16 if quick else 32),
+        ('use_config', 'c20_l0', hdr2, 'l0_case', 'list (list (pyval * pyval)) * option pyval * list (pyval * pyval) * pyval',
+         ['(%s, %s, %s, %s)' % (r['chain'], r['config'], r['kwargs'], r['use']) for r in l0], l0, 3 if quick else 8),
+        ('validate_math_config', 'c20_math', hdr2 + hdr_math, 'math_case', 'list pyval * list pyval * pyval * obs',
+         ['(%s, %s, %s, %s)' % (names[r['dfuncs']], names[r['dvars']], r['in'], r['out']) for r in m], m, 6 if quick else 16),
+        ('ListGrader.__init__', 'c20_list', hdr2, 'list_case', 'Z * pyval * outcome pyval * obs',
+         ['(%d, %s, %s, %s)' % (w.class_ids['ListGrader'], r['in'], r['norm'], r['out']) for r in lg], lg, 3 if quick else 8),
+        ('SingleListGrader.__init__', 'c20_slist', hdr2, 'slist_case', 'Z * pyval * obs',
+         ['(%d, %s, %s)' % (w.class_ids['SingleListGrader'], r['in'], r['out']) for r in sl], sl, 2 if quick else 8),
+    ]
+    files, owner = [], {}
+    for level, tag, hdr, fn, ty, terms, rows, nsh in batches:
+        for name, text, idx in balanced_files(tag, hdr, fn, ty, terms, nsh):
+            files.append((name, text))
+            owner[name] = (level, rows, idx)
+        res.programs += len(terms)
+    for name, rc, out in core.run_case_files(files):
+        level, rows, idx = owner[name]
+        failing = core.failing_indices(out) if rc == 0 else None
+        if failing is None:
+            res.corr_errors.append((name, out[-2000:]))
+            continue
+        for j in failing:
+            r = rows[idx[j]]
+            res.disagreements.append({'level': level, 'class': r.get('cls'), 'input': (r.get('in') or r.get('config'))[:700],
+                                      'implementation': (r.get('out') or r.get('use'))[:500]})
+    if l1:
+        r = l1[len(l1) // 3]
+        res.samples.append({'validate_config_case': {'class': r['cls'], 'input': r['in'][:400], 'implementation': r['out'][:400]}})
     res.distribution.update({'use_config_cases': len(l0), 'math_rule_cases': len(m), 'list_rule_cases': len(lg),
                              'nested_delimiter_cases': len(sl)})
 
